@@ -35,8 +35,9 @@ theorem decode_nil_of_canon (t : Ty) (v : PyVal) (h : Canon t v) (hw : PosWidth 
 -- STATEMENT CHANGED: hypothesis `h0` added.  The original statement is false for `vs = []`:
 -- with t = .struct (.cons (some [97]) (.arr .all (.arr (.fixed 0) .bool)) (.cons (some [98]) .bool .nil))
 -- we have `t.isBits = none`, `PosWidth t`, `encode (.arr .all t) (.list []) = .ok []`, but
--- `decode (.arr .all t) [] = .error .hang` (the inner unbounded array of zero-width elements spins
--- on the empty buffer, so `decode t []` is `hang`, not `bufferEmpty`, and the outer loop propagates it).
+-- `decode (.arr .all t) [] = .error .data` (the inner unbounded array of zero-width elements decodes an
+-- element without consuming anything: DataError since the repair of `Array._decode_all`, an endless loop
+-- before; so `decode t []` is `data`, not `bufferEmpty`, and the outer loop propagates it).
 -- `PosWidth t` says nothing about the *kind* of failure on an empty buffer, and with `vs = []`
 -- no `Canon t x` hypothesis restricts `t`.  For `vs = []` the conclusion holds iff
 -- `decode t [] = .error .bufferEmpty`, so `h0` is the weakest possible repair; for `vs ≠ []` it is
